@@ -28,6 +28,9 @@ type c08Scenario struct {
 	// Debug: the daemon runs with -log-level debug (a configuration dimension:
 	// code that only runs at that level must not change the shutdown behaviour).
 	Debug bool
+	// HTTP: the daemon runs with -healthz -metrics (HTTP server on :2112 and two
+	// more goroutines in the worker group); such scenarios run one at a time.
+	HTTP bool
 }
 
 var c08Causes = []string{
@@ -123,6 +126,10 @@ func c08Run(r *vlib.Run, sc c08Scenario, idx int) (evaluated bool) {
 	if sc.Debug {
 		o.logLevel = "debug"
 	}
+	if sc.HTTP {
+		o.extra = []string{"-healthz", "-metrics"}
+		label += "/http-server"
+	}
 	scratch, _ := os.MkdirTemp("", "verif-c08-")
 	defer os.RemoveAll(scratch)
 	switch sc.Cause {
@@ -159,6 +166,9 @@ func c08Run(r *vlib.Run, sc c08Scenario, idx int) (evaluated bool) {
 	}
 	if sc.Debug {
 		sig += ":log-level-debug"
+	}
+	if sc.HTTP {
+		sig += ":with-http-server"
 	}
 	misconfigured := strings.Contains(sc.Cause, "-path-")
 	var ws, wa *os.File
@@ -366,9 +376,12 @@ func checkC08(r *vlib.Run) int {
 	dist := vlib.NewDistinct()
 	evals := 0
 	// saturated scenarios are timing-sensitive: run them one at a time; idle ones in parallel
+	for _, c := range []string{"SIGTERM", "SIGINT", "sshd-pipe-eof", "audit-pipe-eof", "malformed-audit-line", "write-failure-on-sshd-line"} {
+		scs = append(scs, c08Scenario{Cause: c, HTTP: true})
+	}
 	var idle, sat []int
 	for i, s := range scs {
-		if s.Saturated {
+		if s.Saturated || s.HTTP {
 			sat = append(sat, i)
 		} else {
 			idle = append(idle, i)
@@ -382,7 +395,7 @@ func checkC08(r *vlib.Run) int {
 	for i, ok := range done {
 		if ok {
 			evals++
-			dist.Add(fmt.Sprintf("%s|%v|%v|%v", scs[i].Cause, scs[i].Saturated, scs[i].NoWriter, scs[i].Debug))
+			dist.Add(fmt.Sprintf("%s|%v|%v|%v|%v", scs[i].Cause, scs[i].Saturated, scs[i].NoWriter, scs[i].Debug, scs[i].HTTP))
 		}
 	}
 	r.Set("causes", c08Causes)
@@ -391,7 +404,7 @@ func checkC08(r *vlib.Run) int {
 	r.Assumptions = []string{"'saturated' is observed: the pumping writer's write(2) hit EAGAIN at least five times before the fault is injected, otherwise the scenario is inconclusive",
 		"'does not exit' is a violation only if the SIGQUIT dump shows main parked in errgroup.Wait and a worker parked; otherwise inconclusive",
 		"signals may end the process with any status; failures must give a non-zero status"}
-	return r.Finish(evals, dist.Len(), "built daemon x failure cause {sshd pipe EOF, audit pipe EOF, malformed audit line, event write failure via /dev/full, sshd/audit path is a regular file / missing / a directory, SIGTERM, SIGINT} x load {idle with writers attached, idle with the other pipe still waiting for its writer, saturated by a pumping writer} x log level {error, debug}; thorough: x3 and with the -race build; distinct = (cause, load) pairs evaluated")
+	return r.Finish(evals, dist.Len(), "built daemon x failure cause {sshd pipe EOF, audit pipe EOF, malformed audit line, event write failure via /dev/full, sshd/audit path is a regular file / missing / a directory, SIGTERM, SIGINT} x load {idle with writers attached, idle with the other pipe still waiting for its writer, saturated by a pumping writer} x log level {error, debug}, and six causes with the HTTP health/metrics server enabled; thorough: x3 and with the -race build; distinct = (cause, load) pairs evaluated")
 }
 
 func lastLineOf(s string) string {
